@@ -51,7 +51,7 @@ def lift(P, newname, pos, newfaces, periodic, Dnew, unew):
     for k in _cellkeys(P):
         Q[k] = rep(P[k]).tolist()
     old_axes = [i for i in range(nd_old + 1) if i != pos]
-    for key, new in (('D', Dnew), ('u', unew)):
+    for key, new in (('D', Dnew), ('u', unew), ('uw', None if unew is None else np.abs(np.asarray(unew, float)) + 0.5)):
         if P.get(key) is None:
             continue
         comps = [None] * (nd_old + 1)
@@ -88,7 +88,7 @@ def permute(P, perm):
     Q['faces'] = [P['faces'][p] for p in perm]
     for k in _cellkeys(P):
         Q[k] = np.transpose(np.asarray(P[k], float), perm).tolist()
-    for key in ('D', 'u'):
+    for key in ('D', 'u', 'uw'):
         if P.get(key) is not None:
             Q[key] = [np.transpose(np.asarray(P[key][p], float), perm).tolist() for p in perm]
     d_old = dims_of(P['faces'])
@@ -114,10 +114,10 @@ def mirror(P, ax):
     Q['faces'][ax] = (-f[::-1]).tolist()
     for k in _cellkeys(P):
         Q[k] = np.flip(np.asarray(P[k], float), axis=ax).tolist()
-    for key in ('D', 'u'):
+    for key in ('D', 'u', 'uw'):
         if P.get(key) is not None:
             comps = [np.flip(np.asarray(c, float), axis=ax) for c in P[key]]
-            if key == 'u':
+            if key in ('u', 'uw'):
                 comps[ax] = -comps[ax]
             Q[key] = [c.tolist() for c in comps]
     d = dims_of(P['faces'])
@@ -149,7 +149,7 @@ def shift(P, ax, k):
         Q[key] = np.roll(np.asarray(P[key], float), k, axis=ax).tolist()
     d = dims_of(P['faces'])
     nd = len(d)
-    for key in ('D', 'u'):
+    for key in ('D', 'u', 'uw'):
         if P.get(key) is not None:
             comps = []
             for j, c in enumerate(P[key]):
@@ -185,7 +185,7 @@ def _lift_case(draw):
     else:
         low, high, p = draw(st.sampled_from(LIFTS))
         names, pos = [high], [p]
-    P = draw(problem.problems(classes=[low], nmax=4, nmax3=3))
+    P = draw(problem.problems(classes=[low], nmax=4, nmax3=3, dirfield=True))
     steps = []
     cur = P
     for nm, p in zip(names, pos):
@@ -225,7 +225,7 @@ def _cart_case(draw):
             core = np.take(c, range(0, d[ax]), axis=ax)
             P[key][ax] = np.concatenate([core, first], axis=ax).tolist()    # seam face: one physical face
         return dict(kind='shift', P=P, ax=ax, k=draw(st.integers(1, max(1, d[ax]))))
-    P = draw(problem.problems(classes=[name], nmax=4, nmax3=3))
+    P = draw(problem.problems(classes=[name], nmax=4, nmax3=3, dirfield=True))
     if op == 'mirror':
         return dict(kind='mirror', P=P, ax=draw(st.integers(0, nd - 1)))
     perm = draw(st.permutations(list(range(nd))))
